@@ -3,7 +3,7 @@ from collections import OrderedDict
 
 from pyvc.api import harness
 from pyvc import spec as SP
-from pyvc.sym import Sym
+from pyvc.sym import Sym, Unsupported
 
 META = {
     "explanation": "balance_stoichiometry delegates the mathematics to sympy (linsolve, nsimplify, gcd, Wild.match) and CBC; what is proved is everything chempy itself is responsible for: (head slice, up to the linsolve call) the signed composition matrix A[i][j] = composition_j[key_i] * (-1 for reactants), one row per composition key incl. charge (the order of the rows is free) and the reactants-then-products column order, and the presence pre-check raising ValueError exactly when a key occurs on one side only without mixed signs there; (tail slice, the statements after the last assignment to `sol`, for ANY vector sol and matrix A that the external solvers may have produced) every normal return has all coefficients non-zero, none negative, and - in the two numeric modes - numeric and satisfying A*sol == 0, with exactly the given species as keys (a set per side) and value sol[index(key)] (possibly int() of it, in the 'smallest integers' mode only); the duplicate-species dispatch. Positivity, coprimality, minimality and refusal of infeasible placements depend on sympy/CBC output: they are stated generically (no expected coefficients) on data only - 30 small signed matrices incl. charge-type rows and fractional entries against brute force, exact rank and an LP (numeric_clauses_on_small_matrices; a parametric answer must admit positive coefficients, and none is due when no positive solution exists), hand-derived under-determined placements without a positive solution in the default mode (fixed_reactions, coal_gas*/sulfur), and the coefficient sum proper on placements whose best and second-best sums differ by 1 or 2 at coefficients of several hundred (minimal_sum_with_large_coefficients) - and decided otherwise by the bounded exhaustive stand-in.",
@@ -23,16 +23,42 @@ class HeadDone(Exception):
 
 
 class FakeMatrix:
+    """stands for a sympy dense matrix of (symbolic) integers: the read-only surface of one (entries, shape, rows / cols, indexing, tolist,
+    applyfunc, the product with the solution vector).  Anything else the code may ask of a real matrix is not modelled: asking for it is a limit of
+    this stand-in (undecided), never a behaviour of the code."""
     _pyvc_symbolic = True
 
     def __init__(self, rows):
-        self.rows = [list(r) for r in rows]
+        self.data = [list(r) for r in rows]
+        self._ncols = len(self.data[0]) if self.data else 0
+
+    rows = property(lambda self: len(self.data))
+    cols = property(lambda self: self._ncols)
+    shape = property(lambda self: (len(self.data), self._ncols))
+
+    def __len__(self):
+        return len(self.data) * self._ncols
+
+    def tolist(self):
+        return [list(r) for r in self.data]
+
+    def __getitem__(self, ij):
+        if isinstance(ij, tuple) and len(ij) == 2 and all(isinstance(x, int) for x in ij):
+            return self.data[ij[0]][ij[1]]
+        if isinstance(ij, int):
+            return [x for r in self.data for x in r][ij]
+        raise Unsupported("FakeMatrix[%r]" % (ij,))
 
     def applyfunc(self, f):
-        return FakeMatrix([[f(x) for x in r] for r in self.rows])
+        return FakeMatrix([[f(x) for x in r] for r in self.data])
 
     def __mul__(self, sol):
-        return [sum(a * getattr(x, "val", x) for a, x in zip(row, sol)) for row in self.rows]
+        return [sum(a * getattr(x, "val", x) for a, x in zip(row, sol)) for row in self.data]
+
+    def __getattr__(self, name):
+        if name.startswith("__"):
+            raise AttributeError(name)
+        raise Unsupported("the matrix stand-in of the contract has no %r" % name)
 
 
 LAY = {
@@ -71,13 +97,13 @@ def _head(name):
         if isinstance(out.exc, HeadDone):
             A = out.exc.A
             v.prove("precheck_passes_only_if_every_key_on_both_sides_or_mixed", SP.neg(refuse))
-            v.prove("matrix_shape_rows_keys_columns_species", len(A.rows) == len(KEYS) and all(len(r) == len(species) for r in A.rows))
+            v.prove("matrix_shape_rows_keys_columns_species", len(A.data) == len(KEYS) and all(len(r) == len(species) for r in A.data))
             # the order of the rows (one balance equation each) is not part of the property, A x = 0 is the same system under any
             # permutation of them; the order of the columns is: the tail reads sol[subst_keys.index(k)].  So: the rows of A are,
             # in SOME order, exactly the rows row(k) = [composition_s[k] * sign(s) for s in reactants + products], one per key.
             import itertools
-            row_is = lambda i, k: SP.conj([A.rows[i][j] == comp[s][k] * (-1 if s in reactants else 1) for j, s in enumerate(species)])
-            v.prove("signed_composition_matrix", len(A.rows) == len(KEYS) and SP.disj([SP.conj([row_is(i, k) for i, k in enumerate(perm)]) for perm in itertools.permutations(KEYS)]))
+            row_is = lambda i, k: SP.conj([A.data[i][j] == comp[s][k] * (-1 if s in reactants else 1) for j, s in enumerate(species)])
+            v.prove("signed_composition_matrix", len(A.data) == len(KEYS) and SP.disj([SP.conj([row_is(i, k) for i, k in enumerate(perm)]) for perm in itertools.permutations(KEYS)]))
         else:
             v.prove("refusal_is_ValueError_and_justified", SP.conj([out.raised(ValueError), refuse]), detail=repr(out.exc))
     return _
@@ -129,6 +155,15 @@ class _FreeSyms:
         return SP.ite(self.nonempty, 1, 0)
 
 
+def _solution_anchor(st):
+    """the tail starts after the last top-level `<solution> = nsimplify(<solution>)`: found by that shape, whatever the local is called"""
+    import ast
+    if isinstance(st, ast.Assign) and isinstance(st.value, ast.Call) and getattr(st.value.func, "id", getattr(st.value.func, "attr", None)) == "nsimplify" \
+            and len(st.value.args) == 1 and isinstance(st.value.args[0], ast.Name) and isinstance(st.targets[0], ast.Name) and st.targets[0].id == st.value.args[0].id:
+        return "sol"
+    return None
+
+
 def _tail(name):
     reactants, products = LAY[name]
 
@@ -144,7 +179,7 @@ def _tail(name):
         v.stub(int, _int_stub)
         env = {"sol": sol, "A": A, "underdetermined": mode, "subst_keys": list(species), "reactants": list(reactants), "products": list(products), "sympy": sympy}
         try:
-            res = v.call_tail(balance_stoichiometry, "sol", env)
+            res = v.call_tail(balance_stoichiometry, _solution_anchor, env)
         except ValueError:
             v.prove("refusal_is_always_allowed", True)
             return
@@ -169,7 +204,7 @@ def _tail(name):
         v.prove("no_negative_coefficient", SP.conj([SP.neg(SP.conj([SP.neg(s.symbolic), s.val < 0])) for s in sol]))
         if not mode:   # the two numeric modes
             v.prove("numeric_modes_have_no_free_symbols", SP.conj([SP.neg(s.symbolic) for s in sol]))
-            v.prove("numeric_modes_are_balanced_A_sol_is_zero", SP.conj([sum(a * s.val for a, s in zip(row, sol)) == 0 for row in A.rows]))
+            v.prove("numeric_modes_are_balanced_A_sol_is_zero", SP.conj([sum(a * s.val for a, s in zip(row, sol)) == 0 for row in A.data]))
             v.prove("numeric_modes_are_strictly_positive", SP.conj([s.val > 0 for s in sol]))
         else:
             v.prove("symbolic_mode_has_no_nan", SP.conj([SP.neg(s.isnan) for s in sol]))
@@ -253,14 +288,14 @@ def _(v):
 
     def refused_or_valid(res, reac, prod):
         if isinstance(res, type):
-            return res in (ValueError, NotImplementedError), res.__name__
+            return issubclass(res, (ValueError, NotImplementedError)), res.__name__
         d = _numeric_answer_defects(res, reac, prod, comp, duplicates_may_vanish=True)
         return not d, "%r: %s" % (res, "; ".join(d))
     # H2O + O2 -> H2O + H2 has no balancing with H2 and O2 on these sides (H: 2a = 2c + 2d, O: a + 2b = c  =>  d = -2b), whichever way H2O is
     # kept or dropped: a refusal is the only right outcome, with or without the flag
-    v.prove("both_sides_refused_by_default", outcome({"H2O", "O2"}, {"H2O", "H2"}) is ValueError)
+    v.prove("both_sides_refused_by_default", (lambda res: isinstance(res, type) and issubclass(res, ValueError))(outcome({"H2O", "O2"}, {"H2O", "H2"})))
     res = outcome({"H2O", "O2"}, {"H2O", "H2"}, allow_duplicates=True)
-    v.prove("allow_duplicates_needs_mode_None", isinstance(res, type) and res in (ValueError, NotImplementedError), repr(res))
+    v.prove("allow_duplicates_needs_mode_None", isinstance(res, type) and issubclass(res, (ValueError, NotImplementedError)), repr(res))
     # H2O -> H2O: 1 -> 1 is a positive balancing, so an answer ({'H2O': 1}, {'H2O': 1}) would satisfy the statement as well as a refusal does
     res = outcome({"H2O"}, {"H2O"}, allow_duplicates=True, underdetermined=None)
     v.prove("identical_sides_refused", *refused_or_valid(res, {"H2O"}, {"H2O"}))
